@@ -175,7 +175,7 @@ def main():
             elif len(parts) > 1 and not isinstance(raw, staticmethod):
                 selfv = args.pop(params[0])
                 fn = getattr(selfv, parts[-1])
-            result = fn(**args)
+            result = fn(*list(args.values()))
         except BaseException as e:        # noqa
             raised = e
         out["raised"] = type(raised).__name__ if raised is not None else None
